@@ -480,7 +480,13 @@ TxComplete(cfg, s, ev) ==
                               ns == RemoveVal(oo.shards, old.id)
                               ns2 == IF k > 1 /\ ~InSeq(sh.id, oo.shards) THEN Append(ns, sh.id) ELSE ns
                           IN SetOrder(acc, [oo EXCEPT !.shards = ns2])
-                 w4 == FoldLeft(fix, w3, [k \in 1..Len(olist) |-> k])
+                 w4a == FoldLeft(fix, w3, [k \in 1..Len(olist) |-> k])
+                 \* the order the migration was opened under (sh.order): if its own period has ended since (the old shard
+                 \* rolled over to a renewal) it is none of the above; it stops listing the new shard and goes when empty
+                 w4 == IF InSeq(sh.order, olist) \/ ~HasOrder(w4a, sh.order) THEN w4a
+                       ELSE LET so == OrderOf(w4a, sh.order)
+                                keep == SelectSeq(so.shards, LAMBDA id : id # sh.id /\ id # old.id)
+                            IN IF keep = <<>> THEN DelOrder(w4a, so.id) ELSE SetOrder(w4a, [so EXCEPT !.shards = keep])
                  sh2 == [sh1 EXCEPT !.status = SCompleted]
                  w5 == ExtendMetaDuration(cfg, ExpShardAdd(w4, ShardEnd(sh2), sh.id), o.data, ShardEnd(sh2))
                  w6 == ShardPledge(cfg, w5, sh2)
